@@ -19,9 +19,14 @@ MapIs(list, f) == /\ Len(list) = Cardinality(DOMAIN f)
                   /\ \A i \in 1..Len(list) : list[i][1] \in DOMAIN f /\ f[list[i][1]] = list[i][2]
 ResultIs(r, want) == IF want = None THEN r.v = "refused"
                      ELSE r.v = "model" /\ MapIs(r.frame_map, want[1].frame_map) /\ MapIs(r.keyed, want[1].frame_map_with_key)
+\* "returns that frame via the extended header's ids when one is supplied and via the frame id alone otherwise": what a lookup answers
+\* when an extended header is supplied and no frame is stored under its ids is not stated (the code answers nothing; falling back to
+\* the frame id alone would be as good)
 LookupsOk(e, want) == want # None => \A i \in 1..Len(e.lookups) :
-   LET q == e.lookups[i] IN q.res = Lookup(want[1], q.id, q.ext)
-Load11Ok(e) == LET want == Intended(e.model) IN ResultIs(e.res, want) /\ LookupsOk(e, want)
+   LET q == e.lookups[i] IN
+   (q.ext = None \/ <<q.ext[1].ct, q.ext[1].ap, q.id>> \in DOMAIN want[1].frame_map_with_key) => q.res = Lookup(want[1], q.id, q.ext)
+\* the result is one of the models the statement allows (FibexModel!Accept), and the lookups answer from that same model
+Load11Ok(e) == \E want \in Accept(e.model) : ResultIs(e.res, want) /\ LookupsOk(e, want)
 Load12Ok(e) == e.res.v \in {"model", "refused"}
 Matches(e) == CASE e.op = "load11" -> Load11Ok(e) [] e.op = "load12" -> Load12Ok(e) [] OTHER -> FALSE
 Drifts(e) == e.op = "load12" /\ e.kind = "tokens" /\ e.res.v \in {"model", "refused"} /\ e.res.v # Load(e.files).phase
